@@ -13,11 +13,11 @@ def current_bugs():
     return (flags["F1"], flags["F2"], flags["F3"], flags["F4"])
 
 
-def run_impl(lines, timeout_ms=15000):
+def run_impl(lines, timeout_ms=15000, shards=None):
     """Runs sim cases on the implementation; a hang ends the runner process, which is restarted on
     the remaining cases."""
     res = [None] * len(lines)
-    shards = min(vlib.NPROC, max(1, len(lines) // 40))
+    shards = min(vlib.NPROC, max(1, len(lines) // 40)) if shards is None else max(1, min(vlib.NPROC, shards, len(lines)))
     import subprocess, threading
     def work(idx):
         todo = list(idx)
@@ -73,7 +73,7 @@ def mask_overflow(case, obs):
 
 
 def compare_cases(rep, name, cases, model_ok, oracles=(), thread_counts=(1,), rule="", nontrivial=lambda c, o: True,
-                  bugs=None, sample_filter=None):
+                  bugs=None, sample_filter=None, shards=None):
     """cases: list of dicts.  oracles: functions (case, impl_obs) -> None | failure description."""
     bugs = current_bugs() if bugs is None else bugs
     lines_model = [simcase.render(c, bugs=bugs) for c in cases]
@@ -81,7 +81,7 @@ def compare_cases(rep, name, cases, model_ok, oracles=(), thread_counts=(1,), ru
     results = {}
     for th in thread_counts:
         lines = [simcase.render(c, bugs=bugs, threads=th) for c in cases]
-        results[th] = run_impl(lines)
+        results[th] = run_impl(lines, shards=shards)
     stats = {"cases": len(cases), "threads": list(thread_counts), "model_disagreements": 0, "oracle_failures": 0,
              "unparsable": 0, "nontrivial": 0, "by_result": {}, "cmd_kinds": {}}
     dis, orc = [], []
